@@ -38,12 +38,13 @@ import (
 // ---- case ------------------------------------------------------------------------------
 
 type Case struct {
-	Kind string        `json:"kind"` // provider | issuer | discover | pair | overlap
+	Kind string        `json:"kind"` // provider | issuer | discover | pair | overlap | faultseq
 	P    *ProviderCase `json:"p,omitempty"`
 	I    *IssuerCase   `json:"i,omitempty"`
 	D    *DiscoverCase `json:"d,omitempty"`
 	Pair *PairCase     `json:"pair,omitempty"`
 	O    *OverlapCase  `json:"o,omitempty"`
+	F    *FaultSeqCase `json:"f,omitempty"`
 }
 
 // EPShape customises one endpoint: path (custom route), under (absolute URL below the issuer in front of the
@@ -481,7 +482,9 @@ func genDiscover(t *rapid.T) *DiscoverCase {
 }
 
 func genCase(t *rapid.T) Case {
-	switch rapid.SampledFrom([]string{"provider", "provider", "provider", "provider", "provider", "issuer", "issuer", "issuer", "discover", "discover", "pair", "pair", "overlap", "overlap"}).Draw(t, "kind") {
+	switch rapid.SampledFrom([]string{"provider", "provider", "provider", "provider", "provider", "issuer", "issuer", "issuer", "discover", "discover", "pair", "pair", "overlap", "overlap", "faultseq", "faultseq"}).Draw(t, "kind") {
+	case "faultseq":
+		return Case{Kind: "faultseq", F: genFaultSeq(t)}
 	case "overlap":
 		return Case{Kind: "overlap", O: genOverlap(t)}
 	case "pair":
@@ -517,6 +520,8 @@ func run(c Case) (res *vkit.Result) {
 		runPair(c.Pair, res)
 	case c.Kind == "overlap" && c.O != nil && c.O.P != nil:
 		runOverlap(c.O, res)
+	case c.Kind == "faultseq" && c.F != nil && c.F.P != nil:
+		runFaultSeq(c.F, res)
 	default:
 		res.Grey = true
 		res.Label("kind:malformed")
@@ -1487,13 +1492,14 @@ func runDiscover(dc *DiscoverCase, res *vkit.Result) {
 // ---- properties ------------------------------------------------------------------------------
 
 const rule = "provider cases = router (op.Provider / LegacyServer) x 6 config flags x storage capabilities (cc, te, device, extras) x issuer strategy (static https/http issuers with ports, paths, trailing slash; from Host; from Forwarded) x Host header x Forwarded header(s) x 1-3 further (Host, Forwarded) combinations sent to the same provider instance (same Host / other Forwarded, other Host / same Forwarded, both different, finally the first again; each document must name the issuer of its own request, its endpoints must be routed, fresh tokens must carry it; identical requests must get identical statements) x per-endpoint shape (default / custom path / absolute URL below the issuer / absolute URL elsewhere / nil on LegacyServer) x signing key x client auth method; each is judged from its own discovery document: every advertised endpoint below the issuer is requested (404/405 = not routed), all flows then use the advertised addresses, each of the 6 token-endpoint grants is probed with a registered, authenticated, complete request (advertised <=> not unsupported_grant_type), iss of every JWT issued == document issuer, each advertised PKCE method accepts the right and refuses a wrong verifier, an advertised request-object support is tried with 1-3 generated request shapes (OIDC Core 6.1: each of redirect_uri, state, nonce, response_mode, prompt, max_age, login_hint, code_challenge as plain parameter / inside the object only / in both with different values / absent, scope and response_type plain or repeated (scope widened) in the object; aud as array / string / array with a further entry; signed by client web or mach; sent by GET query or POST form): the request must be accepted, the stored authorization request and the redirect must carry the object's value wherever the object has one and the plain value otherwise, a code challenge conveyed by the object must bind the code (right verifier accepted, superseded plain one refused); the other probes vary their shape too: authorization requests of the grant / PKCE probes by GET or POST, the machine client by client_secret_basic or (when enabled) client_secret_post, authorization / userinfo / end_session endpoints requested with GET and POST; client.Discover accepts the document for its issuer and refuses a near miss; " +
-	"pair cases (1 in 6) = TWO providers A and B in one process (B generated independently, or A with 1-3 of S256 / Post / PKJWT / Refresh / ReqObj / cc / te / device / router / signing key / issuer toggled; no endpoint options on the op.Provider router) and 1-3 steps with harness-owned interleaving: " +
+	"pair cases (1 in 8) = TWO providers A and B in one process (B generated independently, or A with 1-3 of S256 / Post / PKJWT / Refresh / ReqObj / cc / te / device / router / signing key / issuer toggled; no endpoint options on the op.Provider router) and 1-3 steps with harness-owned interleaving: " +
 	"gate step = provider X's discovery request runs on a goroutine and is held INSIDE X's storage (SignatureAlgorithms, the storage call of the discovery builders; KeySet as a method discovery does not consult) on a gate while 1-3 generated actions happen (the other provider answers discovery / is judged completely / has its exported helper lists or op.CreateDiscoveryConfig computed; X itself answers a second discovery request - on its own goroutine, it may have to wait for the held one - or has its helpers called), " +
 	"then X is released and the document that was in flight is judged by the full oracle above (every wait is on a channel, no wall-clock verdict; identical requests to X must get identical bodies); held step = the lists returned for X by op.GrantTypes, Scopes, ResponseTypes, SubjectTypes, SigAlgorithms, RequestObjectSigAlgorithms, AuthMethods*Endpoint, *SigAlgorithms, SupportedClaims, CodeChallengeMethods, SupportedUILocales and the struct op.CreateDiscoveryConfig returned for X are held while the same actions happen, " +
 	"must read the same afterwards, and the held struct marshalled afterwards is judged as X's document; " +
-	"overlap cases (1 in 7) = ONE provider instance (op.Provider router, RegisterLegacyServer, or op.RegisterServer with an application-defined op.Server; issuer mostly derived from Host / Forwarded) answers 2-4 overlapping requests for its published documents (discovery / keys / readiness) carrying the same or different (Host, Forwarded) combinations (same, other Host, other Forwarded, both other, the first again) under a harness-owned schedule: each request runs on its own goroutine and may be parked inside the storage call its document needs (SignatureAlgorithms / KeySet / Health) on entry or on exit, starts and releases happen in a generated order (up to 4 requests parked at once, released in start order or another one); schedule-independent oracle: every request answers once all gates are open, every discovery answer is judged for the headers IT was asked with (names an issuer, advertised endpoints below it are routed, fresh tokens obtained with those headers carry it) and says what a quiet request with the same headers is told afterwards; " +
+	"overlap cases (1 in 8) = ONE provider instance (op.Provider router, RegisterLegacyServer, or op.RegisterServer with an application-defined op.Server; issuer mostly derived from Host / Forwarded) answers 2-4 overlapping requests for its published documents (discovery / keys / readiness) carrying the same or different (Host, Forwarded) combinations (same, other Host, other Forwarded, both other, the first again) under a harness-owned schedule: each request runs on its own goroutine and may be parked inside the storage call its document needs (SignatureAlgorithms / KeySet / Health) on entry or on exit, starts and releases happen in a generated order (up to 4 requests parked at once, released in start order or another one); schedule-independent oracle: every request answers once all gates are open, every discovery answer is judged for the headers IT was asked with (names an issuer, advertised endpoints below it are routed, fresh tokens obtained with those headers carry it) and says what a quiet request with the same headers is told afterwards; " +
+	"fault-sequence cases (1 in 8) = ONE provider instance (the same three routers, issuer mostly derived from Host / Forwarded) answers 2-5 requests for its published documents (discovery / keys / readiness) one after the other, for the same or different (Host, Forwarded) combinations, while the storage call the document needs (SignatureAlgorithms / KeySet / Health) fails during about half of them (plain error, deadline / cancellation plain or wrapped, ready-made *oidc.Error plain or wrapped, oidc.ErrKeyNone, keys AND an error) or answers an empty list; history-independent oracle: every discovery answer DELIVERED as a success (2xx with a document) is judged for the headers IT was asked with (names an issuer, advertised endpoints below it are routed, fresh tokens obtained with those headers carry it) and makes the same statements as a quiet request with the same headers afterwards; error answers and a document that only lacks the signing algorithms are grey; " +
 	"issuer cases = strings assembled from a labelled grammar (empty / scheme / separator / userinfo / host / port / path / query / fragment) x insecure opt-in x strategy, verdict from the labels (excluded as grey: other schemes, userinfo, upper-case scheme, empty '?' or '#'); discover cases = asked issuer x relation of the served document's issuer (equal, 15 near misses, missing) x well-known override; " +
-	"non-trivial = provider configuration differing from the all-defaults one / pair whose members differ in a grant capability or discovery-relevant setting / issuer with a must-accept or must-reject verdict / overlap case in which a request ran while a discovery / keys / readiness request of the same provider was held inside the storage / document issuer differing from the asked one; distinct = (configurations of A and B, steps) / (configuration, requests with their headers and parking points, schedule) / configuration class (router, flags, capabilities, issuer, host, forwarded, endpoint shapes, alg, client auth, authorization transport, request-object shapes) / issuer string x opt-in x strategy / (asked, served) pair"
+	"non-trivial = provider configuration differing from the all-defaults one / pair whose members differ in a grant capability or discovery-relevant setting / issuer with a must-accept or must-reject verdict / overlap case in which a request ran while a discovery / keys / readiness request of the same provider was held inside the storage / fault sequence with at least one discovery request whose storage call failed or answered empty / document issuer differing from the asked one; distinct = (configurations of A and B, steps) / (configuration, requests with their headers and parking points, schedule) / (configuration, requests with their headers and storage faults) / configuration class (router, flags, capabilities, issuer, host, forwarded, endpoint shapes, alg, client auth, authorization transport, request-object shapes) / issuer string x opt-in x strategy / (asked, served) pair"
 
 var prop = vkit.Prop[Case]{ID: "C19", Rule: rule, Gen: genCase, Run: run}
 
